@@ -159,6 +159,100 @@ func frameDiff(s real.MsgSnap, m *ref.Msg) string {
 	return ""
 }
 
+// c18Expand: a template with ellipses inside a message in any completeness state, filled in ONE call with the repeat
+// counts and the values for the names the expansion generates; then the same map object is passed to a sibling
+// derived from the same message. Only the item tree may change, and the map is the caller's.
+func c18Expand(c *ctx, i int, r *rng.R) {
+	g := gen.New(r, gen.Profile{MaxDepth: 1 + r.Intn(3), Vars: true, Ellipsis: true, PlainNames: true, Budget: 80, MaxKids: 3, MaxElems: 3})
+	tpl := g.Tree()
+	if tpl.Kind != ref.L {
+		return
+	}
+	counts := map[string]int{}
+	for _, v := range tpl.Vars() {
+		if ref.IsEllipsisName(v) {
+			counts[v] = r.Intn(3)
+		}
+	}
+	if len(counts) == 0 {
+		return
+	}
+	m := g.Msg(tpl, false)
+	m.W = []int{0, 1, 2}[r.Intn(3)]
+	if m.W == 1 && m.Function%2 == 0 {
+		m.W = 2
+	}
+	if r.Bool() {
+		m.Session = -1
+		m.Sys = [4]byte{} // a message that was never stamped has no system bytes
+	} else if r.Chance(1, 3) {
+		m.Session = []int{0, 1, 65535}[r.Intn(3)]
+	}
+	cs := c18Case{Msg: m, Ops: []prodOp{{Kind: "expand-and-fill"}}}
+	var msg *ast.DataMessage
+	if o := real.Try(func() { msg = real.BuildMsg(m) }); o.Panicked {
+		return // name collisions of generated templates are C12's subject
+	}
+	exp := ref.Expand(tpl, counts)
+	vals := fullAssignment(g, exp)
+	filled, ok := ref.Fill(exp, vals)
+	if !ok {
+		return
+	}
+	all := map[string]interface{}{}
+	for k, n := range counts {
+		all[k] = n
+	}
+	for k, v := range vals {
+		all[k] = rawOf(v)
+	}
+	want := *m
+	want.Item = filled
+	before := real.Snap(msg)
+	var m1 *ast.DataMessage
+	if o := real.Try(func() { m1 = msg.FillVariables(all) }); o.Panicked {
+		c.Class("expand-and-fill/refused(skipped)") // generated names that collide: both orders refuse (C10/C12)
+		return
+	}
+	c.Class("producer/expand-and-fill-in-one-call")
+	c.Note(rng.HashStr(ref.PrintMsg(m)+fmt.Sprint(counts)), true)
+	if d := before.Diff(real.Snap(msg)); d != "" {
+		c.Violation("C18/receiver-changed/expand-and-fill", d, cs)
+		return
+	}
+	if d := frameDiff(real.Snap(m1), &want); d != "" {
+		c.Violation("C18/frame/expand-and-fill-in-one-call", fmt.Sprintf("%s; template %s counts %v", d, clipS(ref.PrintMsg(m)), counts), cs)
+		return
+	}
+	// the same map object again, on a sibling derived from the same message
+	sib := msg
+	wantSib := want
+	if m.W == 2 {
+		b := m.Function%2 == 1 && r.Bool()
+		if o := real.Try(func() { sib = msg.SetWaitBit(b) }); o.Panicked {
+			return
+		}
+		wantSib.W = 0
+		if b {
+			wantSib.W = 1
+		}
+	} else {
+		if o := real.Try(func() { sib = msg.SetSessionIDAndSystemBytes(77, []byte{7, 7, 7, 7}) }); o.Panicked {
+			return
+		}
+		wantSib.Session, wantSib.Sys = 77, [4]byte{7, 7, 7, 7}
+	}
+	var m2 *ast.DataMessage
+	if o := real.Try(func() { m2 = sib.FillVariables(all) }); o.Panicked {
+		c.Violation("C18/frame/second-fill-from-the-same-map/refused", fmt.Sprintf("%s; template %s", o, clipS(ref.PrintMsg(m))), cs)
+		return
+	}
+	c.Class("producer/second-fill-from-the-same-map")
+	if d := frameDiff(real.Snap(m2), &wantSib); d != "" {
+		c.Violation("C18/frame/second-fill-from-the-same-map", fmt.Sprintf("%s; template %s counts %v", d, clipS(ref.PrintMsg(m)), counts), cs)
+	}
+}
+
 func c18Eval(c *ctx, cs c18Case) {
 	var cur *ast.DataMessage
 	if o := real.Try(func() { cur = real.BuildMsg(cs.Msg) }); o.Panicked {
@@ -227,7 +321,7 @@ func genOp(g *gen.G, m *ref.Msg, kind string) prodOp {
 		case 0:
 			op.Session = r.PickInt([]int{-2, -1, 65536, 65535, 0, 1 << 20, -65536, 1 << 32, 1<<32 + 7, 1<<32 - 1, 1<<32 - 2, math.MaxInt64, math.MinInt64, -(1 << 32), 1<<48 + 258, 1 << 31, 1<<16 + 1<<32})
 		default:
-			op.Session = r.Intn(65536)
+			op.Session = []int{0, 1, 65535, r.Intn(65536), r.Intn(65536), r.Intn(65536)}[r.Intn(6)]
 		}
 		op.Sys = r.Bytes(r.Intn(9))
 		if m.Session >= 0 && r.Chance(1, 3) {
@@ -297,7 +391,7 @@ func fullAssignment(g *gen.G, it *ref.Item) map[string]ref.Val {
 				if x.AMax == -1 {
 					n += g.R.Intn(6)
 				} else if x.AMax > x.AMin {
-					n += g.R.Intn(x.AMax - x.AMin + 1)
+					n += g.R.Intn(spanCap(x.AMax-x.AMin) + 1)
 				}
 				sub[x.AVar] = ref.Val{Str: g.ASCII(n), IsS: true}
 			}
@@ -348,7 +442,8 @@ func runC18(c *ctx) {
 			c18Eval(c, cs)
 		}
 	})
-	c.Required = []string{"producer/wait", "producer/session", "producer/fill", "refused/wait", "refused/session", "refused/fill", "sequence-length/3"}
+	c.parallel(c.pick(20000, 200000), func(i int, r *rng.R) { c18Expand(c, i, r) })
+	c.Required = []string{"producer/expand-and-fill-in-one-call", "producer/second-fill-from-the-same-map", "producer/wait", "producer/session", "producer/fill", "refused/wait", "refused/session", "refused/fill", "sequence-length/3"}
 }
 
 func replayC18(c *ctx, raw json.RawMessage) {
